@@ -159,6 +159,7 @@ def canon_result(r) -> Dict[str, Any]:
 
 def run_validation(spec, cer, soll: bool) -> Dict[str, Any]:
     set_cer(cer)
+    E._arm(cer["rc"], cer["fc"], cer["hints"], cer["packages"])  # no-op unless the check configured suspending / method-based evaluators
     ahb = to_maus(spec)
 
     async def go():
@@ -177,6 +178,7 @@ _eval_cache: Dict[Any, Any] = {}
 def eval_node_expr(text: str, cer, entered_input=None) -> Dict[str, Any]:
     """what validation sees of a node's expression: the evaluation result of the selected part, or 'invalid'"""
     set_cer(cer)
+    E.disarm()
 
     async def go():
         tree = await parse_expression_including_unresolved_subexpressions(text, resolve_packages=True)
